@@ -546,7 +546,7 @@ class DeserializationMethodVisitor(
                 all_alliases,
                 self.additional_properties,
                 is_typed_dict(cls),
-                tuple(validators),
+                tuple(v.bound_to(cls) for v in validators),
                 tuple(
                     (f.name, f.default_factory)
                     for f in fields
